@@ -31,13 +31,14 @@ fn make_cells(v: &[Sexp], lib: &mut t::library::Library) -> Option<Vec<Ptr<t::ce
     }
     Some(cells)
 }
-pub fn op_place(args: &[Sexp]) -> String {
+pub fn op_place(args: &[Sexp], retry: bool) -> String {
     let r = (|| -> Option<String> {
         let mut lib = t::library::Library::new("lib");
         let cells = make_cells(&args.get(0)?.list()?[1..], &mut lib)?;
         let specs = &args.get(1)?.list()?[1..];
         // first pass: instances with placeholder locations
         let mut insts: Vec<Ptr<Instance>> = vec![];
+        let mut sizeof_cell: Option<usize> = None;
         for (i, s) in specs.iter().enumerate() {
             let sv = s.list()?;
             insts.push(Ptr::new(Instance { inst_name: format!("{}", i), cell: cells.get(sv[0].int()? as usize)?.clone(), loc: (0, 0).into(), reflect_horiz: sv[2].boolean()?, reflect_vert: sv[3].boolean()? }));
@@ -51,7 +52,7 @@ pub fn op_place(args: &[Sexp]) -> String {
                         let sl = lv[4].list()?;
                         let by = match sl[0].atom()? {
                             "pp" => SepBy::UnitSpeced(UnitSpeced::PrimPitches(if sl[1].atom()? == "h" { PrimPitches::x(sl[2].int()? as isize) } else { PrimPitches::y(sl[2].int()? as isize) })),
-                            "sizeof" => SepBy::SizeOf(cells.get(sl[1].int()? as usize)?.clone()),
+                            "sizeof" => { sizeof_cell = Some(sl[1].int()? as usize); SepBy::SizeOf(cells.get(sl[1].int()? as usize)?.clone()) }
                             _ => return None,
                         };
                         // the separation goes in the axis of the placement side
@@ -67,6 +68,8 @@ pub fn op_place(args: &[Sexp]) -> String {
         // another cell of the same library, listed (hence placed) first, whose instances carry the SAME names but
         // other cells and positions, each placed relative to the one before: nothing of it may leak into `top`
         let mut decoy_insts: Vec<Ptr<Instance>> = vec![];
+        let mut decoy_ptr: Option<Ptr<t::cell::Cell>> = None;
+        let mut outer_ptr: Option<(Ptr<t::cell::Cell>, Ptr<Instance>)> = None;
         if specs.len() % 3 != 0 && !cells.is_empty() {
             let mut decoy = t::layout::Layout::new("decoy", 0, t::outline::Outline::rect(3000, 3000).ok()?);
             for i in 0..specs.len() {
@@ -77,7 +80,7 @@ pub fn op_place(args: &[Sexp]) -> String {
                 decoy.instances.push(inst.clone());
                 decoy_insts.push(inst);
             }
-            lib.cells.add(decoy);
+            decoy_ptr = Some(lib.cells.add(decoy));
         }
         let mut top = t::layout::Layout::new("top", 0, t::outline::Outline::rect(1000, 1000).ok()?);
         for i in &insts { top.instances.push(i.clone()); }
@@ -87,10 +90,29 @@ pub fn op_place(args: &[Sexp]) -> String {
         let topptr = if specs.len() % 2 == 1 {
             let mid = Ptr::new(t::cell::Cell::from(top));
             let mut outer = t::layout::Layout::new("outer", 0, t::outline::Outline::rect(2000, 2000).ok()?);
-            outer.instances.push(Ptr::new(Instance { inst_name: "mid".into(), cell: mid.clone(), loc: (0, 0).into(), reflect_horiz: false, reflect_vert: false }));
-            lib.cells.add(outer);
+            let midinst = Ptr::new(Instance { inst_name: "mid".into(), cell: mid.clone(), loc: (0, 0).into(), reflect_horiz: false, reflect_vert: false });
+            outer.instances.push(midinst.clone());
+            outer_ptr = Some((lib.cells.add(outer), midinst));
             mid
         } else { lib.cells.add(top) };
+        // a FAILED first attempt: the cell a `sizeof` separation measures has no view yet, so the placer gives up part-way;
+        // the view is then supplied and the same library (the same instance objects) is placed again — the failure must
+        // leave nothing behind
+        if let Some(k) = sizeof_cell {
+            if retry {
+                let saved = cells[k].write().unwrap().layout.take();
+                let _ = t::placer::Placer::place(lib.clone(), empty_stack());
+                cells[k].write().unwrap().layout = saved;
+                // a failed run leaves the instance lists of the layouts it touched drained: the user puts the instances back
+                let refill = |cell: &Ptr<t::cell::Cell>, list: &Vec<Ptr<Instance>>| {
+                    let mut c = cell.write().unwrap();
+                    if let Some(ly) = c.layout.as_mut() { ly.instances = Default::default(); ly.places.clear(); for i in list { ly.instances.push(i.clone()); } }
+                };
+                refill(&topptr, &insts);
+                if let Some(d) = &decoy_ptr { refill(d, &decoy_insts); }
+                if let Some((o, mi)) = &outer_ptr { refill(o, &vec![mi.clone()]); }
+            }
+        }
         let res = t::placer::Placer::place(lib, empty_stack());
         let out = match res {
             Err(_) => "err".to_string(),
@@ -98,7 +120,9 @@ pub fn op_place(args: &[Sexp]) -> String {
                 let c = topptr.read().unwrap();
                 let ly = c.layout.as_ref()?;
                 let mut v = vec![];
-                for i in ly.instances.iter() {
+                let mut listed: Vec<Ptr<Instance>> = ly.instances.iter().cloned().collect();
+                if retry { listed.sort_by_key(|i| i.read().unwrap().inst_name.parse::<usize>().unwrap_or(usize::MAX)); }
+                for i in listed.iter() {
                     let i = i.read().unwrap();
                     match &i.loc { Place::Abs(xy) => v.push(format!("({} {} {} {} {})", i.inst_name, xy.x.num, xy.y.num, of_bool(i.reflect_horiz), of_bool(i.reflect_vert))), Place::Rel(_) => v.push(format!("({} rel)", i.inst_name)) }
                 }
@@ -163,7 +187,7 @@ fn horiz(s: &str) -> bool { s == "left" || s == "right" }
 pub fn oracle(line: &str) -> String {
     let p = match Sexp::parse_all(line) { Some(p) if !p.is_empty() => p, _ => return "na".into() };
     match p[0].atom().unwrap_or("") {
-        "place" => {
+        "place" | "place.retry" => {
             let cells: Vec<(i64, i64)> = p[1].list().unwrap()[1..].iter().map(|c| { let c = c.list().unwrap(); (c[0].int().unwrap(), c[1].int().unwrap()) }).collect();
             let specs: Vec<&[Sexp]> = p[2].list().unwrap()[1..].iter().map(|s| s.list().unwrap()).collect();
             let n = specs.len();
@@ -265,6 +289,10 @@ pub fn gen(thorough: bool, rng: &mut Rng, out: &mut Vec<String>) {
             specs[me] = format!("({} {} {} {})", rng.below(4), loc, rh, rv);
         }
         out.push(format!("place {} (insts {})", cells, specs.join(" ")));
+        // the same program after a failed first attempt (the cell a `sizeof` separation measures has no view yet), a repair
+        // and a second run on the same objects
+        let joined = specs.join(" ");
+        if joined.contains("sizeof") && i % 2 == 0 { out.push(format!("place.retry {} (insts {})", cells, joined)); }
     }
     for _ in 0..(if thorough { 10000 } else { 1500 }) {
         let depth = rng.below(3);
